@@ -56,6 +56,7 @@ d7c8347 C18 C18.fileid
 e6f927d C16 C16.destreads
 ae28e34 C03 C03.nullwidth thorough
 550d93b C05 C05.nanbounds
+b76b929 C14 C14.rollback
 LIST
 git -C /repo worktree remove --force $WT
 rm -rf /tmp/fixcheck-ev
